@@ -5,6 +5,7 @@ package codec
 
 import (
 	"encoding/binary"
+	"errors"
 	"fmt"
 	"strconv"
 	"strings"
@@ -292,6 +293,9 @@ func Strings(p []Ins) []string {
 }
 
 // VMDecode decodes with the VM's own per-opcode parsers (the path vm.Run uses). Panics propagate.
+// ErrUndefinedOpcodeAccepted: the exported opcode splitter returned success for an opcode outside the instruction set.
+var ErrUndefinedOpcodeAccepted = errors.New("vm.ParseOp accepted an undefined opcode")
+
 func VMDecode(b []byte) (prog []Ins, rest []byte, err error) {
 	for len(b) > 0 {
 		op, bb, e := vm.ParseOp(b)
@@ -326,7 +330,11 @@ func VMDecode(b []byte) (prog []Ins, rest []byte, err error) {
 		case vm.MPREV:
 			ins.S1, ins.S2, b, e = vm.ParseMPrev(b)
 		default:
-			return prog, b, fmt.Errorf("opcode %d has no decoder", op)
+			if op == 0 {
+				return prog, b, fmt.Errorf("opcode 0 (NOOP) has no decoder") // don't-care
+			}
+			// vm.ParseOp handed out an opcode that does not exist, with a nil error
+			return prog, b, ErrUndefinedOpcodeAccepted
 		}
 		if e != nil {
 			return prog, b, e
